@@ -42,8 +42,17 @@ func genCtx(r *Rng, tier string, n int, emit func(string)) {
 		}
 		k := 4 + r.Intn(14)
 		ops := make([]string, k)
+		// half of the cases run on a tree without any hostname route (op V registers it): the matcher then skips the
+		// hostname stage, which otherwise resets the trailing-slash buffers of the recycled context on every request
+		withHost := r.Chance(50)
 		for i := range ops {
 			ops[i] = string(ctxOps[r.Intn(len(ctxOps))])
+			if ops[i] == "v" && !withHost {
+				ops[i] = "i"
+			}
+		}
+		if withHost {
+			ops[r.Intn(1+k/3)] = "V"
 		}
 		emit("ctx\t" + strings.Join(ops, ";"))
 	}
@@ -307,9 +316,6 @@ func newCtxRun() (*ctxRun, error) {
 	if _, err = r.Handle("GET", "/rd/{id}", ctxRouteHandler, fox.WithRedirectTrailingSlash(true)); err != nil {
 		return nil, err
 	}
-	if _, err = r.Handle("GET", "{sub}.example.com/hv/{id}", ctxRouteHandler); err != nil {
-		return nil, err
-	}
 	return &ctxRun{r: r, ids: map[uintptr]int{}}, nil
 }
 
@@ -337,6 +343,14 @@ func (run *ctxRun) op(op byte, k int) string {
 			_, _ = run.r.Handle("GET", "/extra"+itoa(n), ctxRouteHandler)
 		}
 		return "-"
+	case 'V':
+		// the hostname route is registered (tree replaced, new pool); idempotent
+		if !run.r.Has("GET", "{sub}.example.com/hv/{id}") {
+			if _, err := run.r.Handle("GET", "{sub}.example.com/hv/{id}", ctxRouteHandler); err != nil {
+				return "bad-op"
+			}
+		}
+		return "-"
 	case 'd', 'h', 'w', 'c':
 		p.method, p.path, p.scope, p.pattern, p.params = "GET", "/u/"+tok, fox.RouteHandler, "/u/{id}", "id="+tok
 		wantCode = ctxStatus(k)
@@ -356,6 +370,9 @@ func (run *ctxRun) op(op byte, k int) string {
 		p.method, p.path, p.scope = "OPTIONS", "/u/"+tok, fox.OptionsHandler
 		wantCode = 200
 	case 'v':
+		if !run.r.Has("GET", "{sub}.example.com/hv/{id}") {
+			return "bad-op"
+		}
 		p.method, p.path, p.scope, p.pattern = "GET", "/hv/"+tok, fox.RouteHandler, "{sub}.example.com/hv/{id}"
 		p.host = "h" + tok + ".example.com"
 		p.params = "sub=h" + tok + "&id=" + tok
@@ -510,7 +527,7 @@ func runCtxSeq(ops []string) (string, bool) {
 		if len(run.clones) > before {
 			probes[k] = run.clones[len(run.clones)-1]
 		}
-		if o[0] == 'T' {
+		if o[0] == 'T' || o[0] == 'V' {
 			sameTree = 0
 		} else {
 			sameTree++
@@ -581,6 +598,9 @@ func runCtxConc(spec string) string {
 			default:
 			}
 			run.op('T', 0)
+			if i == 3 {
+				run.op('V', 0)
+			}
 			runtime.Gosched()
 		}
 	}()
